@@ -147,8 +147,8 @@ func (fileStartEngine) Run(ctx *fw.Ctx, cs any) {
 	}
 	cmd := exec.Command(self)
 	if c.Slow != "" {
-		st, err := exec.LookPath("strace")
-		if err != nil {
+		st, ok := straceUsable()
+		if !ok {
 			ctx.Count("filestart.strace_unavailable", 1)
 			return
 		}
